@@ -246,3 +246,178 @@ def c04_spec(w, ev, slot):
     # per-id metadata datasets in axis order (decoded with raw h5py above only
     # for row counts); ids in order were compared in conformance()
     return 'c04:ok'
+
+
+# ===================================================================== C14 ==
+def _drop_empty_other(exp, ax):
+    oax = 1 - ax
+    keep = [i for i in range(exp.n(oax)) if (exp.vec(oax, i) != 0).any()]
+    return exp.take(oax, keep)
+
+
+def _cmp_subset(w, got_table, exp, what, md=True, check_type=True):
+    s = Snap(got_table)
+    e = exp.copy()
+    if not md:
+        e.md = [None, None]
+    if e.is_empty():
+        if s.ids[0] != e.ids[0] or s.ids[1] != e.ids[1]:
+            w.fail('c14.subset', '%s: ids %r, expected %r'
+                   % (what, s.ids, e.ids))
+        return
+    d = diff_ref(s, e, check_type)
+    if d:
+        w.fail('c14.subset', '%s: %s' % (what, d))
+
+
+@probe('c14_subset')
+def c14_subset(w, ev, slot):
+    import io
+    import h5py
+    import datetime
+    import biom
+    from biom import Table
+    from biom.cli.table_subsetter import _subset_table
+    ref = slot.ref
+    t = slot.real
+    a, b, c = ev.get('a', 0), ev.get('b', 0), ev.get('c', 0)
+    ax = a & 1
+    n = ref.n(ax)
+    mask = (ev.get('salt', 1) % ((1 << n) - 1)) + 1 if n < 20 else 1
+    sel = [i for i in range(n) if mask >> i & 1] or [0]
+    order = sel[b % len(sel):] + sel[:b % len(sel)]
+    if b & 16:
+        order = order[::-1]
+    names = [ref.ids[ax][i] for i in order]
+    exp_take = ref.take(ax, sel)
+    exp_drop = _drop_empty_other(exp_take, ax)
+    unknown = (c % 5 == 0)
+    when = datetime.datetime(2021, 3, 4, 5, 6, 7)
+    out = []
+    h5ok = h5_grammar_ok(ref) and _group_md_text(slot.real) is not False
+    if h5ok:
+        path = store.new_path(w, '.biom')
+        with h5py.File(path, 'w') as f:
+            t.to_hdf5(f, 'sim-subset', compress=bool(a & 2),
+                      creation_date=when)
+        try:
+            w.case('c14.subset', 'from_hdf5', slot, ax=ax)
+            try:
+                with h5py.File(path, 'r') as f:
+                    got = Table.from_hdf5(f, ids=list(names),
+                                          axis=AXNAME[ax])
+            except Exception as e:  # noqa
+                w.fail('c14.subset_raised', 'from_hdf5(ids=%r, %s) raised %r'
+                       % (names, AXNAME[ax], e),
+                       finding='C14.numpy_in1d_removed')
+            else:
+                _cmp_subset(w, got, exp_drop, 'from_hdf5(ids=%r, %s)'
+                            % (names, AXNAME[ax]))
+            w.case('c14.subset', 'from_hdf5_nomd', slot, ax=ax)
+            try:
+                with h5py.File(path, 'r') as f:
+                    got = Table.from_hdf5(f, ids=list(names), axis=AXNAME[ax],
+                                          subset_with_metadata=False)
+            except Exception as e:  # noqa
+                w.fail('c14.subset_raised', 'from_hdf5(ids=%r, %s, '
+                       'subset_with_metadata=False) raised %r'
+                       % (names, AXNAME[ax], e),
+                       finding='C14.nomd_subset_bytes_vs_str')
+            else:
+                _cmp_subset(w, got, exp_take, 'from_hdf5(ids=%r, %s, '
+                            'subset_with_metadata=False)'
+                            % (names, AXNAME[ax]), md=False, check_type=False)
+            w.case('c14.subset', 'subset_table_hdf5', slot, ax=ax)
+            try:
+                got, fmt = _subset_table(path, None, AXNAME[ax], list(names))
+            except Exception as e:  # noqa
+                w.fail('c14.subset_raised', 'subset-table on HDF5 raised %r'
+                       % (e,), finding='C14.numpy_in1d_removed')
+            else:
+                _cmp_subset(w, got, exp_drop, 'subset-table (HDF5, ids=%r)'
+                            % (names,))
+            if unknown:
+                w.stats['fault.F2.armed'] += 1
+                bad = list(names) + [w.absent_id()]
+                for label, fn in (
+                        ('from_hdf5', lambda: Table.from_hdf5(
+                            h5py.File(path, 'r'), ids=bad, axis=AXNAME[ax])),
+                        ('subset-table (HDF5)', lambda: _subset_table(
+                            path, None, AXNAME[ax], bad))):
+                    try:
+                        fn()
+                        refused = False
+                    except Exception:  # noqa
+                        refused = True
+                    w.stats['fault.F2.fired'] += 1
+                    if not refused:
+                        w.fail('c14.unknown_id', '%s accepted a request '
+                               'naming an id that is not in the file' % label)
+        finally:
+            import gc
+            gc.collect()
+            if os.path.exists(path):
+                os.unlink(path)
+        out.append('h5')
+    # ---- JSON
+    text = t.to_json('sim-subset', creation_date=when)
+    w.case('c14.subset', 'parse_table_json', slot, ax=ax)
+    for label, mk in (('parse_table(StringIO, ids)',
+                       lambda: io.StringIO(text)),
+                      ('parse_table(lines, ids)',
+                       lambda: [text[:len(text) // 2], text[len(text) // 2:]])):
+        try:
+            got = biom.parse_table(mk(), ids=list(names), axis=AXNAME[ax])
+        except Exception as e:  # noqa
+            w.fail('c14.subset_raised', '%s raised %r' % (label, e))
+        else:
+            e2 = exp_drop.copy()
+            e2.md = [canon_md(json.loads(json.dumps(m))) if m else None
+                     for m in e2.md]
+            _cmp_subset(w, got, e2, '%s ids=%r %s' % (label, names,
+                                                     AXNAME[ax]))
+    doc = json.loads(text)
+    variants = [('as written', text),
+                ('compact', json.dumps(doc, separators=(',', ':'))),
+                ('spaced', json.dumps(doc)),
+                ('indent=2', json.dumps(doc, indent=2))]
+    results = []
+    for label, jtext in variants:
+        w.case('c14.subset', 'subset_table_json', slot, ax=ax, ser=label)
+        try:
+            gen, fmt = _subset_table(None, jtext, AXNAME[ax], list(names))
+            pieces = []
+            for piece in gen:          # a lazy generator: stepped to the end
+                pieces.append(piece)
+            sub = json.loads(''.join(pieces))
+            got = Table.from_json(sub)
+        except Exception as e:  # noqa
+            w.fail('c14.subset_raised', 'subset-table on JSON (%s) raised %r'
+                   % (label, e), finding='C14.json_slicer_whitespace',
+                   trigger=label in ('spaced', 'indent=2'))
+            continue
+        e2 = exp_take.copy()
+        e2.md = [canon_md(json.loads(json.dumps(m))) if m else None
+                 for m in e2.md]
+        _cmp_subset(w, got, e2, 'subset-table (JSON %s, ids=%r %s)'
+                    % (label, names, AXNAME[ax]))
+        results.append(Snap(got).digest())
+    if len(set(results)) > 1:
+        w.fail('c14.serialisation', 'subset-table gives different tables for '
+               'different serialisations of the same JSON document')
+    if unknown:
+        w.stats['fault.F2.armed'] += 1
+        try:
+            gen, fmt = _subset_table(None, text, AXNAME[ax],
+                                     list(names) + [w.absent_id()])
+            list(gen)
+            refused = False
+        except Exception:  # noqa
+            refused = True
+        w.stats['fault.F2.fired'] += 1
+        if not refused:
+            w.fail('c14.unknown_id', 'subset-table (JSON) accepted a request '
+                   'naming an id that is not in the file')
+    w.expect_unchanged(slot, 'c14.source_changed', 'writing for subset')
+    out.append('json')
+    return 'c14:' + '+'.join(out)
